@@ -154,6 +154,15 @@ def main():
                         d['n'] = max(1, 2 * int(c['n']) // k)
                         out_.append(d)
                 cfgs = out_
+        if args.tier == 'thorough' and getattr(mod, 'ATHERIS', None) and \
+                os.path.isdir(os.path.join(DEPS, 'atheris')):
+            # coverage-guided supplement: libFuzzer mutates the byte
+            # stream Hypothesis builds cases from (see core.run_atheris)
+            for a in mod.ATHERIS:
+                d = dict(a)
+                d['mode'] = 'atheris'
+                d.setdefault('name', '%s-atheris' % d.get('impl', 'py'))
+                cfgs.append(d)
         only = os.environ.get('VERIF_ONLY')
         if only:
             cfgs = [c for c in cfgs if only in c.get('name', '')]
